@@ -10,7 +10,7 @@ PID = "C09"
 
 def gen(rng, tier):
     cases = []
-    n = 6000 if tier == "quick" else 60000
+    n = 20000 if tier == "quick" else 150000
     for s in text.DIRECTED:
         cases.append((s, "directed"))
     for p in text.PLACEHOLDERS:
